@@ -407,8 +407,9 @@ def _valid_width(prog: Program, res: Result) -> None:
     # declared width is nsamps + min(0, min delays) - max(0, max delays)
     want = env().poly(ast.parse("nsamps + min(0, np.min(dm_delays)) - max(0, np.max(dm_delays))", mode="eval").body)
     key = "dmt_block_valid:declared"
-    decl_norm = declared.canon().replace("arr.shape[1]", "nsamps")
-    if decl_norm == want.canon():
+    want_shape = env().poly(ast.parse("arr.shape[1] + min(0, np.min(dm_delays)) - max(0, np.max(dm_delays))", mode="eval").body)
+    decl_norm = declared.canon()
+    if declared in (want, want_shape):
         res.ok("R4", dv, dalloc, "declared width = nsamps - (max positive shift) + (min negative shift)", key=key)
     else:
         res.bad("R4", dv, dalloc, f"declared valid width is {decl_norm}, expected {want.canon()}", key=key)
